@@ -653,17 +653,21 @@ def search_failing(ctx, broken):
 
 
 MANIFEST = {
-    'level_text': 'Proof (Coq) over an executable model of TaborProgram.__init__ and everything it calls: whenever the '
-                  'model compiler accepts a program, the independent table player applied to its segments / sequencer '
-                  'tables / advanced table yields the quantised source program on both channels and both markers, '
-                  'for all trees, counts, lengths and configurations; emitted segments and (advanced mode) tables '
-                  'respect the device limits.  Termination of the two restructuring loops is _partial (fuel). The '
-                  'model is tied to /repo by an exact correspondence check (segments as uploaded binary, tables, mode, '
-                  'accept/reject) and the specification is evaluated on the implementation\'s tables on every case.',
+    'level_text': 'Proof (Coq, unbounded in tree shape / counts / lengths / limits) over an executable model of '
+                  'TaborProgram.__init__ and everything it calls, in stages: (1) flatten_and_balance(2) and '
+                  'prepare_program_for_advanced_sequence_mode preserve the played leaf sequence for every fuel '
+                  '(_partial: termination not proved); (2) a sampled segment decoded from its uploaded binary layout is '
+                  'the 14-bit codes of both channels and the half-rate marker bits of the leaf; (3) the quantiser '
+                  'is nearest-integer, ties to even, 14 bit; (4) every emitted segment and, in advanced mode, every '
+                  'sequencer table respects the device limits (single mode refuted by witness = known finding). The '
+                  'composition compile = Ok o -> expand o = spec (C16_plays_statement) is NOT proved: the index '
+                  'bookkeeping of the parse / de-duplication stage is only tested.  Tie to /repo: exact '
+                  'correspondence check (segments as uploaded binary, tables, mode, accept/reject) and the '
+                  'specification evaluated by Coq on the implementation\'s tables on every case.',
     'level_note': 'Trusted: Coq kernel, harness, numpy float exactness on dyadic inputs, Waveform equality classes and '
                   'get_sampled (inputs of the model / compared through the spec), affine voltage transformations only, '
                   'no volatile repetitions; the instrument driver is not importable and not covered.',
-    'technique': 'Coq proof (translation validation of an executable compiler model) + correspondence check + '
+    'technique': 'Coq proof (staged translation validation of an executable compiler model) + correspondence check + '
                  'PlottableProgram replay oracle',
     'design_ref': 'DESIGN.md §5 C16',
 }
